@@ -30,7 +30,7 @@ from ..mgr import ManagerSystem, WORLDS, P
 from ..world import World, wrap
 from . import common
 from .c01 import replay_history
-from .c03 import _loads
+from .c03 import _loads, check_indices
 
 LEVEL = "model_checking"
 
@@ -72,6 +72,14 @@ def alphabet(world, name, tier="thorough"):
     loads = _loads(world)
     cfg["extra"] = loads[:8] + [("copyfrom", op[1], op[2]) for op in loads[:4]] + [("export",)]
     return cfg
+
+
+def _uses_call(t):
+    if not isinstance(t, tuple):
+        return False
+    if t and t[0] == "call":
+        return True
+    return any(_uses_call(x) for x in t if isinstance(x, tuple))
 
 
 def graph_canon(w):
@@ -243,7 +251,11 @@ class System(ManagerSystem):
             # ---- overwrite=False / True against a destination that already defines one of the targets differently
             if ns.tasks:
                 (k0, t0) = next(iter(ns.tasks.items()))
-                other = ("bin", "add", t0.term, ("lit", 100))
+                # the pre-existing definition reads a location the copied one does not read (so a replaced definition that is
+                # not properly removed leaves edges which do not follow from the surviving definitions)
+                spare = [L for L in (self.cfg.get("leaves") or self.world["leaves"])
+                         if not T.overlap(L, k0[1]) and not any(T.overlap(L, r) for r in t0.reads) and ("E", L) not in ns.tasks]
+                other = ("bin", "mul", ("lit", 2), ("loc", spare[0])) if spare else ("bin", "add", t0.term, ("lit", 100))
                 for ow in (False, True):
                     c = Sub(self.world, contents, top_label, nested)
                     from xdeps.tasks import ExprTask
@@ -265,6 +277,35 @@ class System(ManagerSystem):
                         issues.append(self.issue("violation", hist, op, f"copy_expr_from(binding {bname}, overwrite={ow}): {len(c.m.tasks)} definitions, "
                                                                         f"expected {len(ns.tasks)}"))
                         return issues
+                    probs = check_indices(c.m, "")
+                    if probs:
+                        issues.append(self.issue("violation", hist, op, f"copy_expr_from(binding {bname}, overwrite={ow}) onto a manager that already "
+                                                                        f"defines {c.ref(k0[1])} leaves indices that do not follow from the definitions: {probs[0]}"))
+                        return issues
+        # ---- a rebinding map with TWO labels: the definitions also reference the function container 'f'; it is rebound to a ref
+        # with another label while the destination owns an unrelated container labelled 'f'
+        if any(_uses_call(t.term) for t in ns.tasks.values()):
+            c = Sub(self.world, contents, "t", True)
+            import xdeps
+            m3 = xdeps.Manager()
+            top = {"sub": wrap(contents, ("s",), c.trace), "other": 1}
+            tref = m3.ref(top, "t")
+            gref = m3.ref(T.Funcs(), "g")
+            m3.ref({"dbl": None}, "f")            # a decoy: the destination's own 'f' is something else
+            try:
+                m3.copy_expr_from(m, "s", bindings={"s": tref["sub"], "f": gref})
+            except BaseException as e:  # noqa
+                issues.append(self.issue("violation", hist, op, f"copy_expr_from with the two-label rebinding map {{s -> t['sub'], f -> g}} raised "
+                                                                f"{type(e).__name__}: {str(e)[:160]}"))
+                return issues
+            roots3 = {"s": tref["sub"], "f": gref}
+            for tid, t in ns.tasks.items():
+                e = T.ref_of(roots3, tid[1])._expr
+                want = T.to_ref(t.term, roots3)
+                if e is None or not (e == want):
+                    issues.append(self.issue("violation", hist, op, f"copy_expr_from with the rebinding map {{s -> t['sub'], f -> g}}: "
+                                                                    f"{T.ref_of(roots3, tid[1])} is defined as {e}, expected {want}"))
+                    return issues
         # ---- only the named container's definitions are copied: a second container whose label extends the copied label
         if ns.tasks:
             from xdeps.tasks import ExprTask
@@ -343,6 +384,7 @@ def term_corpus(tier):
     # string literals as positional / keyword arguments, keywords in non-alphabetical order
     for x in args[:6]:
         terms += [("call", "scale", (x, ("lit", "k")), ()), ("call", "scale", (x,), (("unit", ("lit", "m")),)),
+                  ("call", "pick", (), (("x", x), ("k", ("lit", 2)))), ("call", "hyp", (), (("y", x), ("x", ("lit", -1.5)))),
                   ("call", "kw", (x, ("lit", "a'b")), (("z", ("lit", "mrad")), ("a", x)))]
     # computed keys
     terms += [("dyn", ("s", ("i", "l")), ("loc", ("s", ("i", "i")))), ("dyn", ("s", ("i", "l")), ("bin", "sub", ("loc", ("s", ("i", "i"))), ("lit", 1))),
